@@ -473,7 +473,8 @@ pub fn bfs(spec: &SeqSpec, threads: usize, known: &KnownFn) -> SeqResult {
     let mut violations: Vec<Violation> = Vec::new();
     let mut known_hits: Vec<(String, Vec<String>)> = Vec::new();
     let (_, m0, _) = model_history(spec, &[]);
-    let mut seen: HashMap<u64, u64> = HashMap::new(); // model hash -> impl digest
+    let mut seen: HashMap<u64, u64> = HashMap::new(); // (model hash, impl digest) -> impl digest
+    let mut seen_models: HashMap<u64, u64> = HashMap::new();
     seen.insert(hash_of(&m0), 0);
     let mut frontier: Vec<Vec<Op>> = vec![vec![]];
     let mut distinct_obs: BTreeSet<u64> = BTreeSet::new();
@@ -538,10 +539,17 @@ pub fn bfs(spec: &SeqSpec, threads: usize, known: &KnownFn) -> SeqResult {
                 continue; // do not expand a state where model and implementation disagree
             }
             let (_, m, _) = model_history(spec, &hist);
-            let key = hash_of(&m);
+            // states are merged only if the model state AND the implementation's observable state
+            // (answers + directory listing) agree; a history that reaches a known model state with
+            // a different implementation state is counted and expanded on its own
+            let model_key = hash_of(&m);
+            if seen_models.get(&model_key).map_or(false, |d| *d != obs_digest) {
+                stats.abstraction_divergences += 1;
+            }
+            seen_models.entry(model_key).or_insert(obs_digest);
+            let key = hash_of(&(model_key, obs_digest));
             match seen.get(&key) {
-                Some(d) if *d == obs_digest || *d == 0 => {}
-                Some(_) => stats.abstraction_divergences += 1,
+                Some(_) => {}
                 None => {
                     seen.insert(key, obs_digest);
                     stats.states += 1;
